@@ -15,6 +15,10 @@ type SuiteItem struct {
 	Bound int
 	Split int  // deviation level at which sub-trees are distributed over shards
 	Whole bool // the scenario is explored by one shard alone (many small scenarios)
+	// MinShare, when set, is a lower bound on the item's share of the time budget. For scenarios that take a
+	// fraction of a second and come in hundreds: their even share of the budget is a few seconds, which a stall
+	// of a loaded machine can eat up; with a floor they are still explored completely (0 = the even share only).
+	MinShare time.Duration
 }
 
 type ShardOut struct {
@@ -103,6 +107,9 @@ func ExploreAll(t *testing.T, items []SuiteItem, budget time.Duration) []*Stats 
 		share := remain / time.Duration(mine)
 		if share < time.Second {
 			share = time.Second
+		}
+		if share < it.MinShare {
+			share = it.MinShare
 		}
 		split := it.Split
 		if split == 0 {
